@@ -130,7 +130,7 @@ class C19(Prop):
             for _ in range(rng.randint(0, 3)):
                 items.append(rng.choice([{'k': 'raw', 'm': '782f79', 'c': '0102', 'enum': False}, {'k': 'mime', 'm': '6170706c69636174696f6e2f6a736f6e', 'enum': True},
                                          {'k': 'accept', 'ms': ['782f79'], 'enum': False}]))
-            rk = rng.choice(['one', 'one', 'one', 'two', 'none', 'empty', 'multi'])
+            rk = rng.choice(['one', 'one', 'one', 'two', 'none', 'empty', 'multi', 'empty-first'])
             if rk == 'one':
                 tag = rng.choice(names + ['71'])
                 if rng.random() < 0.25:
@@ -145,6 +145,9 @@ class C19(Prop):
                 items.insert(rng.randint(0, len(items)), {'k': 'route', 'tags': []})
             elif rk == 'multi':
                 items.insert(rng.randint(0, len(items)), {'k': 'route', 'tags': [rng.choice(names), rng.choice(names)]})
+            elif rk == 'empty-first':
+                # the first tag is the route, also when it is empty (no handler can be registered for it): the second tag is not
+                items.insert(rng.randint(0, len(items)), {'k': 'route', 'tags': ['', rng.choice(names)] + ([rng.choice(names)] if rng.random() < 0.3 else [])})
             ak = rng.choice(['none', 'good-b', 'bad-b', 'good-s', 'bad-s', 'two'])
             auth = {'good-b': {'k': 'bearer', 't': '67'}, 'bad-b': {'k': 'bearer', 't': '6767'}, 'good-s': {'k': 'simple', 'u': '75', 'p': '70'},
                     'bad-s': {'k': 'simple', 'u': '7575', 'p': '75'}}
